@@ -301,7 +301,7 @@ M_HANDLER_DEF = M("error-result-keeps-definition", "        result.funcdef = NUL
 M_HANDLER_LEAK = M("tables-not-released-before-propagating", "        if (NULL != a.parent) {\n            janet_asm_deinit(&a);", "        if (NULL != a.parent) {", "released before an error is passed")
 
 
-def struct_unit(uid, secs, what, mutants, extra_def=None, bound_extra="", failing=None, tier="quick", timeout=600, unwind=17):
+def struct_unit(uid, secs, what, mutants, extra_def=None, bound_extra="", failing=None, tier="quick", timeout=900, unwind=17):
     if uid not in ("asm.asm1.header", "asm.asm1.header.below-max", "asm.asm1.bytecode"):
         tier = "thorough"       # 60-170 s
     u = {"id": uid, "props": ["C10"], "tier": tier, "class": "bounded",
